@@ -512,6 +512,30 @@ def tr_first_write(repo, consumed):
     return first_kinds('.msh') == {'Create'}, first_kinds('.cnt') == {'Create'}
 
 
+PINNED = {
+    ('femio/formats/fistr/fistr.py', 'FrontISTRData', '_resolve_assignments_materials'):
+        'ids = self._extract_ids_from_sections()\nif not np.any(ids):\n    return\nproperty_names = self.materials.keys()\nfor property_name in property_names:\n    materials = self._extract_material_values(property_name)\n    self.elemental_data[property_name] = self.elements.generate_elemental_attribute(property_name, ids, materials)\nreturn',
+    ('femio/formats/fistr/fistr.py', 'FrontISTRData', '_extract_ids_from_sections'):
+        "if len(self.sections) == 0:\n    list_ids = [self.elements.ids]\nelse:\n    list_ids = [self.element_groups[section_value] for section_value in self.sections.get_attribute_data('EGRP')]\nreturn np.concatenate(list_ids)",
+    ('femio/formats/fistr/fistr.py', 'FrontISTRData', '_extract_material_values'):
+        "material = self.materials[property_name]\nreturn np.concatenate([np.repeat(np.atleast_2d(material.loc[material_name].values), len(self.element_groups[element_group_name]), axis=0) for material_name, element_group_name in zip(self.sections['EGRP'].ids, self.sections['EGRP'].data)])",
+    ('femio/fem_elemental_attribute.py', 'FEMElementalAttribute', 'generate_elemental_attribute'):
+        'dict_elemental_attribute = {}\ndata_frame = pd.DataFrame(data, index=ids)\nfor type_, type_ids in self.dict_type_ids.items():\n    intersect_ids = np.intersect1d(type_ids, ids)\n    if len(intersect_ids) == 0:\n        continue\n    intersect_data = data_frame.loc[intersect_ids]\n    dict_elemental_attribute.update({type_: FEMAttribute(name, ids=intersect_ids, data=intersect_data.values)})\nreturn FEMElementalAttribute(name, dict_elemental_attribute)',
+}
+
+
+def tr_pinned(repo, consumed):
+    """functions modelled by hand whose body must be exactly the modelled one (AST, so
+    comments / layout do not matter): the per-element material assignment"""
+    for (rel, cname, fname), want in PINNED.items():
+        txt, tree = _src(repo, rel)
+        fn = _find_func(_find_class(tree, cname), fname)
+        consumed[f'{Path(rel).name}:{fname}'] = _region(txt, fn)
+        got = '\n'.join(ast.unparse(x) for x in _body_wo_doc(fn))
+        if got != want:
+            raise TranslateError(f'{cname}.{fname} is not the modelled body any more')
+
+
 def tr_read_array(repo, consumed):
     txt, tree = _src(repo, 'femio/util/string_parser.py')
     cls = _find_class(tree, 'StringSeries')
@@ -539,6 +563,7 @@ def translate(repo):
     gen_empty_ok = tr_generate_constraints(repo, consumed)
     merge_g, merge_i, merge_n = tr_split_blocks(repo, consumed)
     msh_trunc, cnt_trunc = tr_first_write(repo, consumed)
+    tr_pinned(repo, consumed)
     if elem_fmt != '%d':
         raise TranslateError(f'element rows are written with {elem_fmt!r}, not %d')
     return {
